@@ -22,7 +22,8 @@ type catchSpec struct {
 }
 
 type descriptor struct {
-	Shape   string       `json:"shape"` // seq | par | xor
+	Shape   string       `json:"shape"` // seq | par | xor | funnel (3..4 tokens reach ONE catch event one after another: the node is armed and fired again and again)
+	Tokens  int          `json:"tokens,omitempty"`
 	Catches []catchSpec  `json:"catches"`
 	Taken   int          `json:"taken"` // xor: index of the branch taken
 	Script  []drive.Stim `json:"script"`
@@ -59,6 +60,22 @@ func build(d descriptor) (*gen.Graph, map[string]any) {
 		return cur
 	}
 	switch d.Shape {
+	case "funnel":
+		f := b.Add(gen.KPar)
+		mrg := b.Add(gen.KXor)
+		b.Connect(st, f)
+		for i := 0; i < d.Tokens; i++ {
+			t := b.Add(gen.KTask)
+			b.Connect(f, t)
+			b.Connect(t, mrg)
+		}
+		c := b.Add(gen.KCatch)
+		c.Defs = []gen.EventDef{d.Catches[0].Def}
+		b.Connect(mrg, c)
+		after := b.Add(gen.KTask)
+		b.Connect(c, after)
+		en := b.Add(gen.KEnd)
+		b.Connect(after, en)
 	case "seq":
 		cur := st
 		for _, cs := range d.Catches {
@@ -105,7 +122,32 @@ func drawDef(rt *rapid.T) gen.EventDef {
 }
 
 func draw(rt *rapid.T) descriptor {
-	d := descriptor{Shape: rapid.SampledFrom([]string{"seq", "par", "xor"}).Draw(rt, "shape"), Perturb: uint64(rapid.IntRange(0, 300).Draw(rt, "perturb"))}
+	d := descriptor{Shape: rapid.SampledFrom([]string{"seq", "par", "xor", "funnel"}).Draw(rt, "shape"), Perturb: uint64(rapid.IntRange(0, 300).Draw(rt, "perturb"))}
+	if d.Shape == "funnel" {
+		// every round: one more token reaches the catch event (answer), then
+		// events; the catch event is armed / fired once per round
+		d.Tokens = rapid.IntRange(3, 4).Draw(rt, "tokens")
+		d.Catches = []catchSpec{{Def: drawDef(rt)}}
+		e := evOf(d.Catches[0].Def)
+		for i := 0; i < d.Tokens; i++ {
+			d.Script = append(d.Script, drive.Stim{Kind: "answer", Pick: 0})
+			if rapid.IntRange(0, 3).Draw(rt, "twoAtOnce") == 0 && i+1 < d.Tokens {
+				d.Script = append(d.Script, drive.Stim{Kind: "answer", Pick: 0})
+				i++
+			}
+			if rapid.IntRange(0, 2).Draw(rt, "noise") == 0 {
+				d.Script = append(d.Script, drive.Stim{Kind: "event", Ev: &model.Ev{Kind: "signal", Ref: "zz"}})
+			}
+			ev := e
+			d.Script = append(d.Script, drive.Stim{Kind: "event", Ev: &ev})
+			if rapid.Bool().Draw(rt, "answerAfter") {
+				d.Script = append(d.Script, drive.Stim{Kind: "answer", Pick: rapid.IntRange(0, 3).Draw(rt, "pick")})
+			}
+		}
+		ev := e
+		d.Script = append(d.Script, drive.Stim{Kind: "event", Ev: &ev})
+		return d
+	}
 	n := rapid.IntRange(1, 3).Draw(rt, "catches")
 	if d.Shape == "xor" && n < 2 {
 		n = 2
@@ -223,6 +265,9 @@ func classify(d descriptor, out *drive.ScriptOutcome) (cls []string, nt bool) {
 	}
 	if events > 3 {
 		cls = append(cls, "events>inbox")
+	}
+	if d.Shape == "funnel" && fired >= 3 {
+		cls = append(cls, "sameCatchEventFired>=3")
 	}
 	nt = (events >= 2 && fired >= 1 && events > fired) || d.Shape == "xor"
 	return
